@@ -55,12 +55,13 @@ def judge(ex, limit):
     first_name = NAME[first['status']] if first['status'] != 1 else 'Not Solved'
     unsolved = any(e['status'] == 0 or (e['status'] == 1 and e['sol_status'] != 1) for e in unproven)
     first_unsolved = first['status'] == 0 or (first['status'] == 1 and first['sol_status'] != 1)
-    total = None
-    try:
-        mdl = ex['solver'].model
-        total = (mdl.time_after_solve - mdl.time_start).total_seconds()
-    except Exception:
-        pass
+    total = ex.get('virtual_total_s', ex.get('wall_total_s'))
+    if total is None:
+        try:
+            mdl = ex['solver'].model
+            total = (mdl.time_after_solve - mdl.time_start).total_seconds()
+        except Exception:
+            pass
     timeout_due = limit is not None and (unsolved or (total is not None and total > limit))
     info.update(first=first_name, timeout_due=timeout_due, total_virtual_s=total)
     for nm in ('short', 'long'):
@@ -216,9 +217,11 @@ def real_timelimit(ctx):
             TAP.install()
             ex = {'events': [], 'exc': None, 'short': None, 'long': None, 'solver': None}
             try:
+                t_wall = time.monotonic()
                 s = Solver(argv)
                 ex['solver'] = s
                 s.solve(timeLimit=lim)
+                ex['wall_total_s'] = time.monotonic() - t_wall
                 ex['events'] = list(TAP.events)
                 TAP.enabled = False
                 ex['short'] = s.get_results()
